@@ -8,7 +8,7 @@ class C29(C28):
     theorems = ["C29_total_order_modelled_ir", "C29_keyed_fold_per_key", "C29_keyed_reduce_per_key",
                 "C29_interleaving_invariant_fold", "C29_interleaving_invariant_reduce",
                 "C29_keyed_tick_partition_modelled_ir", "C29_proj_concat",
-                "C29_repaired_typing_oracle_independent"]
+                "C29_repaired_typing_oracle_independent", "C29_sort_order_independent"]
     imports = "From HV Require Import Hydro.Model Hydro.ModelTick Hydro.ModelFlows."
     fn = "chk29"
     prop = "C29"
